@@ -166,6 +166,237 @@ fn z_round(tz: &TimeZone, ts: Timestamp, ui: usize, k: i64, mi: usize, cls: &str
     json!({"op":"z_round","cls":cls,"zi":1,"z":zval(&z),"unit":uname,"k":big(k as i128),"mode":MODES[mi].1,"mf":mf,"res":zres(&r)})
 }
 
+
+// ---- C11: spans relative to a reference ------------------------------------------
+
+#[derive(Clone)]
+pub enum Ref {
+    Z(Zoned),
+    Dt(jiff::civil::DateTime),
+    D(jiff::civil::Date),
+    None,
+    H24,
+}
+
+fn f64_parts(x: f64) -> Value {
+    if !x.is_finite() {
+        return json!({"kind":"nonfinite","s":0,"m":big(0),"e":0});
+    }
+    let bits = x.to_bits();
+    let sign = if bits >> 63 == 1 { -1 } else { 1 };
+    let exp = ((bits >> 52) & 0x7ff) as i64;
+    let frac = bits & ((1u64 << 52) - 1);
+    let (m, e) = if exp == 0 { (frac, -1074) } else { (frac | (1u64 << 52), exp - 1075) };
+    json!({"kind":"finite","s": if m == 0 {0} else {sign},"m":big(m as i128),"e":e})
+}
+
+impl Ref {
+    fn json(&self) -> Value {
+        let zero_z = json!({"st":"ok","sec":big(0),"ns":0,"off":0,"civil":[1970,1,1,0,0,0,0]});
+        match self {
+            Ref::Z(z) => json!({"kind":"z","z":zval(z),"c":jdt(z.datetime())}),
+            Ref::Dt(d) => json!({"kind":"dt","z":zero_z,"c":jdt(*d)}),
+            Ref::D(d) => json!({"kind":"dt","z":zero_z,"c":jdt(d.at(0, 0, 0, 0))}),
+            Ref::None => json!({"kind":"none","z":zero_z,"c":[1970,1,1,0,0,0,0]}),
+            Ref::H24 => json!({"kind":"24h","z":zero_z,"c":[1970,1,1,0,0,0,0]}),
+        }
+    }
+    /// exact nanoseconds from the reference to reference + span (witness material; checked by the spec)
+    fn dist(&self, s: &Span) -> Option<i128> {
+        match self {
+            Ref::Z(z) => guard(|| z.checked_add(*s).ok().map(|e| e.timestamp().as_nanosecond() - z.timestamp().as_nanosecond())).ok().flatten(),
+            Ref::Dt(d) => guard(|| d.checked_add(*s).ok().map(|e| d.duration_until(e).as_nanos())).ok().flatten(),
+            Ref::D(d) => Ref::Dt(d.at(0, 0, 0, 0)).dist(s),
+            _ => {
+                let u = |v: i64, n: i128| v as i128 * n;
+                let (wk, dy, hr) = (s.get_weeks() as i64, s.get_days() as i64, s.get_hours() as i64);
+                Some(u(wk, 604_800_000_000_000) + u(dy, 86_400_000_000_000) + u(hr, 3_600_000_000_000)
+                    + u(s.get_minutes(), 60_000_000_000) + u(s.get_seconds(), 1_000_000_000) + u(s.get_milliseconds(), 1_000_000)
+                    + u(s.get_microseconds(), 1_000) + s.get_nanoseconds() as i128)
+            }
+        }
+    }
+}
+
+fn span_unit(s: &Span, ui: usize) -> i64 {
+    match ui {
+        0 => s.get_nanoseconds(),
+        1 => s.get_microseconds(),
+        2 => s.get_milliseconds(),
+        3 => s.get_seconds(),
+        4 => s.get_minutes(),
+        5 => s.get_hours() as i64,
+        6 => s.get_days() as i64,
+        7 => s.get_weeks() as i64,
+        8 => s.get_months() as i64,
+        _ => s.get_years() as i64,
+    }
+}
+
+const UNIT_NS: [i128; 8] = [1, 1_000, 1_000_000, 1_000_000_000, 60_000_000_000, 3_600_000_000_000, 86_400_000_000_000, 604_800_000_000_000];
+
+fn sp_round(r: &Ref, s: Span, si: usize, li: usize, inc: i64, mi: usize, cls: &str) -> Value {
+    let res = guard(|| {
+        let o = jiff::SpanRound::new().smallest(UNITS[si].0).largest(UNITS[li].0).increment(inc).mode(MODES[mi].0);
+        match r {
+            Ref::Z(z) => s.round(o.relative(z)),
+            Ref::Dt(d) => s.round(o.relative(*d)),
+            Ref::D(d) => s.round(o.relative(*d)),
+            Ref::None => s.round(o),
+            Ref::H24 => s.round(o.days_are_24_hours()),
+        }
+    });
+    let (st, out) = match &res {
+        Ok(Ok(x)) => ("ok", *x),
+        Ok(Err(_)) => ("err", Span::new()),
+        Err(_) => ("panic", Span::new()),
+    };
+    // with hours and smaller units only, the reference plays no part
+    let uniform = li <= 5 && s.get_years() == 0 && s.get_months() == 0 && s.get_weeks() == 0 && s.get_days() == 0;
+    let t = if uniform { Ref::None.dist(&s) } else { r.dist(&s) };
+    let mf = match (t, si < 8 && inc > 0) {
+        (Some(t), true) => UNIT_NS[si].checked_mul(inc as i128).map(|n| t.div_euclid(n)).unwrap_or(0),
+        _ => 0,
+    };
+    let q = if inc != 0 { span_unit(&out, si) / inc } else { 0 };
+    // tags for KNOWN_FINDINGS D40 / D41 (never used to decide anything)
+    let sub_day = Ref::None.dist(&Span::new().hours(s.get_hours() as i64).minutes(s.get_minutes()).seconds(s.get_seconds()).milliseconds(s.get_milliseconds()).microseconds(s.get_microseconds()).nanoseconds(s.get_nanoseconds())).unwrap_or(0);
+    let m12 = sub_day.rem_euclid(43_200_000_000_000);
+    let hair = si >= 6 && sub_day != 0 && (m12 <= 1_000_000 || m12 >= 43_200_000_000_000 - 1_000_000);
+    let dst_in_span = match r {
+        Ref::Z(z) => guard(|| z.checked_add(s).map(|e| e.offset() != z.offset() || z.time_zone().following(z.timestamp().min(e.timestamp())).next().map_or(false, |t| t.timestamp() <= z.timestamp().max(e.timestamp()))).unwrap_or(false)).unwrap_or(false),
+        _ => false,
+    };
+    json!({"op":"sp_round","cls":cls,"hair": if hair {1} else {0},"dst_in_span": if dst_in_span {1} else {0},"zi":1,"ref":r.json(),"span":jspan(&s),"smallest":UNITS[si].1,"largest":UNITS[li].1,"inc":big(inc as i128),"mode":MODES[mi].1,
+           "mf":big(mf),"q":big(q as i128),"res":{"st":st,"span":jspan(&out)}})
+}
+
+fn sp_total(r: &Ref, s: Span, ui: usize, cls: &str) -> Value {
+    let res = guard(|| {
+        let u = UNITS[ui].0;
+        match r {
+            Ref::Z(z) => s.total((u, z)),
+            Ref::Dt(d) => s.total((u, *d)),
+            Ref::D(d) => s.total((u, *d)),
+            Ref::None => s.total(u),
+            Ref::H24 => s.total(jiff::SpanTotal::from(u).days_are_24_hours()),
+        }
+    });
+    let (st, f) = match &res {
+        Ok(Ok(x)) => ("ok", f64_parts(*x)),
+        Ok(Err(_)) => ("err", f64_parts(0.0)),
+        Err(_) => ("panic", f64_parts(0.0)),
+    };
+    json!({"op":"sp_total","cls":cls,"zi":1,"ref":r.json(),"span":jspan(&s),"unit":UNITS[ui].1,"res":{"st":st,"f":f}})
+}
+
+fn sp_cmp(r: &Ref, a: Span, b: Span, cls: &str) -> Value {
+    let res = guard(|| {
+        match r {
+            Ref::Z(z) => a.compare((b, z)),
+            Ref::Dt(d) => a.compare((b, *d)),
+            Ref::D(d) => a.compare((b, *d)),
+            Ref::None => a.compare(b),
+            Ref::H24 => a.compare(jiff::SpanCompare::from(b).days_are_24_hours()),
+        }
+    });
+    let (st, o) = match &res {
+        Ok(Ok(x)) => ("ok", *x as i64),
+        Ok(Err(_)) => ("err", 0),
+        Err(_) => ("panic", 0),
+    };
+    json!({"op":"sp_cmp","cls":cls,"zi":1,"ref":r.json(),"a":jspan(&a),"b":jspan(&b),"res":{"st":st,"o":o}})
+}
+
+/// spans whose rounding meets month ends, DST days and unit overflow
+fn c11_span(rng: &mut Rng, time_only: bool) -> Span {
+    let mut u = [0i64; 10];
+    let pick = |rng: &mut Rng, xs: &[i64]| xs[(rng.next() % xs.len() as u64) as usize];
+    match rng.next() % 6 {
+        0 => {
+            u[4] = pick(rng, &[0, 1, 11, 12, 23, 24, 25, 47, 48]);
+            u[5] = pick(rng, &[0, 1, 29, 30, 31, 59]);
+            u[6] = pick(rng, &[0, 1, 29, 30, 59]);
+            u[9] = pick(rng, &[0, 0, 1, 499_999_999, 500_000_000, 500_000_001, 999_999_999]);
+        }
+        1 if !time_only => {
+            u[3] = pick(rng, &[0, 1, 2, 6, 7, 13, 14, 15, 27, 28, 29, 30, 31, 59, 365, 366]);
+            u[4] = pick(rng, &[0, 1, 11, 12, 13, 23, 24, 25]);
+            u[5] = pick(rng, &[0, 0, 30, 59]);
+        }
+        2 if !time_only => {
+            u[0] = pick(rng, &[0, 0, 1, 2, 4, 100]);
+            u[1] = pick(rng, &[0, 1, 5, 6, 7, 11, 12, 13, 18, 23, 24]);
+            u[3] = pick(rng, &[0, 1, 14, 15, 16, 27, 28, 29, 30, 31]);
+            u[4] = pick(rng, &[0, 0, 12]);
+        }
+        3 if !time_only => {
+            u[2] = pick(rng, &[0, 1, 2, 3, 4, 5, 26, 52, 53]);
+            u[3] = pick(rng, &[0, 1, 3, 4, 6, 7, 8]);
+            u[4] = pick(rng, &[0, 0, 12, 36]);
+        }
+        4 => {
+            u[7] = rng.range(0, 5000);
+            u[8] = rng.range(0, 5000);
+            u[9] = rng.range(0, 5000);
+            u[6] = rng.range(0, 200);
+        }
+        _ => {
+            let all: Vec<usize> = if time_only { (4..10).collect() } else { (0..10).collect() };
+            return gen_span(rng, &all);
+        }
+    }
+    mkspan(u, rng.chance(1, 2)).unwrap_or_default()
+}
+
+fn c11_for_ref(out: &mut Out, rng: &mut Rng, r: &Ref, n: usize, cls: &str) {
+    let time_only = matches!(r, Ref::None);
+    let max_unit = match r {
+        Ref::None => 5,
+        Ref::H24 => 7,
+        _ => 9,
+    };
+    for _ in 0..n {
+        let s = c11_span(rng, time_only);
+        // balancing: every largest unit, no rounding
+        let li = (rng.next() % 10) as usize;
+        out.emit(sp_round(r, s, 0, li, 1, 3, cls));
+        // rounding
+        for _ in 0..3 {
+            let si = (rng.next() % (max_unit as u64 + 2)).min(9) as usize;
+            let li = si + (rng.next() % (10 - si as u64)) as usize;
+            let inc = match si {
+                0..=2 => *rng.pick(&[1i64, 2, 5, 10, 100, 250, 500]),
+                3 | 4 => *rng.pick(&[1i64, 2, 5, 10, 15, 20, 30]),
+                5 => *rng.pick(&[1i64, 2, 3, 4, 6, 8, 12]),
+                _ => *rng.pick(&[1i64, 1, 1, 2, 3, 5, 7, 10]),
+            };
+            out.emit(sp_round(r, s, si, li, inc, (rng.next() % 9) as usize, cls));
+        }
+        if rng.chance(1, 6) {
+            // illegal requests
+            let si = (rng.next() % 10) as usize;
+            let li = (rng.next() % 10) as usize;
+            out.emit(sp_round(r, s, si, li, *rng.pick(&[0i64, -1, 7, 24, 60, 1000, i64::MAX]), (rng.next() % 9) as usize, "legality"));
+        }
+        for _ in 0..2 {
+            out.emit(sp_total(r, s, (rng.next() % 10) as usize, cls));
+        }
+        let t = c11_span(rng, time_only);
+        out.emit(sp_cmp(r, s, t, cls));
+        // a near-equal pair: the same distance through different units
+        if let Some(d) = r.dist(&s) {
+            if let Ok(ns) = i64::try_from(d) {
+                if let Some(n) = mkspan([0, 0, 0, 0, 0, 0, 0, 0, 0, ns.unsigned_abs().min(i64::MAX as u64) as i64], ns < 0) {
+                    out.emit(sp_cmp(r, s, n, "same-distance"));
+                    let n1 = n.checked_add(Span::new().nanoseconds(1)).unwrap_or(n);
+                    out.emit(sp_cmp(r, s, n1, "same-distance"));
+                }
+            }
+        }
+    }
+}
+
 fn z_text(tz: &TimeZone, ts: Timestamp, name: &str, cls: &str) -> Value {
     let z = Zoned::new(ts, tz.clone());
     let text = guard(|| z.to_string()).unwrap_or_default();
@@ -358,6 +589,22 @@ pub fn run_zoned(a: &Args, which: &str) {
                 }
                 for &(ts, cls) in &more {
                     out.emit(z_text(tz, ts, &src.name, cls));
+                }
+            }
+            "c11" => {
+                if zi == 0 {
+                    // references that need no zone: none, the 24-hour marker, civil datetimes and dates
+                    let n = if quick { 600 } else { 12_000 };
+                    c11_for_ref(&mut out, &mut rng, &Ref::None, n, "no-reference");
+                    c11_for_ref(&mut out, &mut rng, &Ref::H24, n, "days-are-24h");
+                    for (y, m, d, h) in [(2024i16, 1i8, 31i8, 0i8), (2024, 2, 29, 12), (2023, 2, 28, 23), (2024, 12, 31, 1), (1970, 1, 1, 0), (-9999, 1, 1, 0), (9999, 12, 31, 23), (2024, 3, 31, 6), (2021, 8, 31, 0)] {
+                        let dt = jiff::civil::date(y, m, d).at(h, 30, 0, 500_000_000);
+                        c11_for_ref(&mut out, &mut rng, &Ref::Dt(dt), n / 6, "civil-datetime");
+                        c11_for_ref(&mut out, &mut rng, &Ref::D(dt.date()), n / 12, "civil-date");
+                    }
+                }
+                for &(ts, cls) in &insts {
+                    c11_for_ref(&mut out, &mut rng, &Ref::Z(Zoned::new(ts, tz.clone())), if quick { 3 } else { 10 }, cls);
                 }
             }
             "c10z" => {
